@@ -277,7 +277,9 @@ pub fn build(
                     if let ("size", [grammar::Expr::IntLiteral(size_)]) =
                         (ident.as_str(), exprs.as_slice())
                     {
-                        size = Some(*size_ as usize);
+                        size = Some((*size_).try_into().with_context(|| {
+                            format!("failed to convert `size` attribute into usize for the vftable of type `{resolvee_path}`")
+                        })?);
                     }
                 }
 
